@@ -49,7 +49,7 @@ def main(args):
                "(each registered id with / without '#', with a NON-empty fragment, unknown URI, non-URI string, absent, "
                "boolean schema) and both defaults; TLC checks that existing registrations are kept and later classes are "
                "selectable, and exports the selected class and whether a DeprecationWarning is due. Replay: real "
-               "registrations (registries restored afterwards), validator_for with warnings captured, then "
+               "registrations (registries restored afterwards; for every other history the same spelling is also dispatched once before the registrations), validator_for with warnings captured, then "
                "jsonschema.validate() -- and for a sample the CLI -- on 13 (schema, instance) pairs on which the drafts "
                "(and the later classes, whose arrays admit tuples) disagree must behave exactly as the selected class applied to its own metaschema and to the instance (and an explicitly given class must win). "
                "Non-trivial: the spelling names a registered id; distinct by (registrations, spelling, default)." % (2 if quick else 3))
@@ -60,10 +60,23 @@ def main(args):
     base_classes = [js.Draft3Validator, js.Draft4Validator, js.Draft6Validator, js.Draft7Validator]
     tmp = tempfile.mkdtemp(prefix="c20-")
     try:
+        # what the model says for each spelling while nothing has been registered yet
+        initially = {(json.dumps(ex["q"]["sp"], sort_keys=True), ex["q"]["dflt"]): ex["q"] for ex in r.exports if not ex["regs"]}
         for n, ex in enumerate(r.exports):
             snap = (dict(V.validators), dict(V.meta_schemas.store))
             try:
                 classes = list(base_classes)
+                if ex["regs"] and n % 2 == 0 and ex["q"]["sp"]["base"] not in ("absent", "boolean"):
+                    # the same spelling is dispatched once BEFORE the registrations (nothing about that first answer
+                    # may stick: the registry is consulted anew each time)
+                    q0 = initially[(json.dumps(ex["q"]["sp"], sort_keys=True), ex["q"]["dflt"])]
+                    with warnings.catch_warnings(record=True) as w0:
+                        warnings.simplefilter("always")
+                        got0 = V.validator_for({"$schema": IDS[ex["q"]["sp"]["base"]] + ex["q"]["sp"]["suf"]}, default=classes[ex["q"]["dflt"] - 1])
+                    if got0 is not classes[q0["c"] - 1] or any(issubclass(x.category, DeprecationWarning) for x in w0) != q0["warn"]:
+                        ck.violation("wrong_class_selected", {"registrations": [], "$schema": IDS[ex["q"]["sp"]["base"]] + ex["q"]["sp"]["suf"],
+                                                              "model_selects": "class #%d" % q0["c"], "model_warns": q0["warn"],
+                                                              "validator_for_returned": getattr(got0, "__name__", str(got0))})
                 for reg in ex["regs"]:
                     b = classes[reg["c"] - 1]
                     meta = dict(b.META_SCHEMA)
@@ -93,7 +106,7 @@ def main(args):
                     warned = any(issubclass(x.category, DeprecationWarning) for x in w)
                     ck.replayed += 1
                     ck.count((repr(ex["regs"]), repr(sp), q["dflt"], repr(body)), sp["base"] in ("std3", "std4", "std6", "std7", "new1", "new2", "new3"))
-                    case = {"registrations": ex["regs"], "$schema": None if sp["base"] in ("absent", "boolean") else IDS[sp["base"]] + sp["suf"],
+                    case = {"registrations": ex["regs"], "asked_before_registering": bool(ex["regs"] and n % 2 == 0), "$schema": None if sp["base"] in ("absent", "boolean") else IDS[sp["base"]] + sp["suf"],
                             "schema": schema, "instance": inst, "default": dflt.__name__,
                             "model_selects": "%s (class #%d)" % (want.__name__, q["c"]), "model_warns": q["warn"],
                             "validator_for_returned": getattr(got, "__name__", str(got)), "warned": warned, "source": "MC_C20"}
